@@ -192,7 +192,10 @@ def FORALL_IDX(seq, body: Callable[[Any, Any], Any], lo=0, hi=None, name="i"):
             hi_t = seq.length if hi is None else _lift(hi)
             guard = z3.And(_lift(lo) <= i, i < hi_t)
             b = _b(body(i, seq.at(CTX, i)))
-            return z3.ForAll([i], z3.Implies(guard, b), patterns=[z3.Select(seq.arr, i)])
+            try:
+                return z3.ForAll([i], z3.Implies(guard, b), patterns=[z3.Select(seq.arr, i)])
+            except z3.Z3Exception:  # e.g. a slice (lambda array): no usable trigger term
+                return z3.ForAll([i], z3.Implies(guard, b))
         items = seq.items if isinstance(seq, V.PyList) else list(seq)
         hi_c = len(items) if hi is None else hi
         return AND(*[body(i, items[i]) for i in range(lo, hi_c)])
@@ -270,15 +273,16 @@ def OPT_ALL(opt, pred):
     return opt is None or bool(pred(opt))
 
 
-def FILTER(seq, pred):
-    """[x for x in seq if pred(x)] (order preserving)."""
+def FILTER(seq, pred, strict=False):
+    """[x for x in seq if pred(x)] (order preserving).  strict: also state that the result is strictly shorter than
+    `seq` when some element is rejected (used by termination measures)."""
     if smt():
         from . import loops
 
         if isinstance(seq, V.SymSeq):
             i0 = z3.FreshConst(z3.IntSort(), "fi0")
             cond = _b(pred(seq.at(CTX, i0)))
-            return loops.canonical_filter(CTX, seq, cond, i0)
+            return loops.canonical_filter(CTX, seq, cond, i0, strict=strict)
         items = seq.items if isinstance(seq, V.PyList) else list(seq)
         out = []
         for x in items:
@@ -304,3 +308,12 @@ def MAPSEQ(seq, fn):
         items = seq.items if isinstance(seq, V.PyList) else list(seq)
         return V.PyList([fn(x) for x in items])
     return [fn(x) for x in seq]
+
+
+def CALLS(qualname_suffix: str):
+    """SMT reading only: the calls made so far on this path through the contract of a function whose qualified name
+       ends with `qualname_suffix`, in program order: a list of records {ns (arguments), result, returned, index}.
+       Native reading: None (protocol clauses are not evaluated natively)."""
+    if smt():
+        return [e for e in CTX.call_log if e["callee"].endswith(qualname_suffix)]
+    return None
